@@ -5,7 +5,7 @@
 # since it doesn't do BIND or UDP ASSOCIATE.
 
 import struct
-from socket import inet_pton, inet_ntop, inet_ntoa, inet_aton, AF_INET6, AF_INET
+from socket import inet_pton, inet_ntop, inet_ntoa, AF_INET6, AF_INET
 
 from twisted.internet.defer import inlineCallbacks, Deferred
 from twisted.internet.protocol import Protocol, Factory
@@ -371,15 +371,15 @@ class _SocksMachine(object):
     @_machine.output()
     def _send_resolve_ptr_request(self):
         "sends RESOLVE_PTR request (Tor custom)"
-        addr_type = 0x04 if isinstance(self._addr, ipaddress.IPv4Address) else 0x01
-        encoded_host = inet_aton(self._addr.host)
+        is_v6 = isinstance(self._addr, IPv6Address)
+        encoded_host = inet_pton(AF_INET6 if is_v6 else AF_INET, self._addr.host)
         self._data_to_send(
             struct.pack(
-                '!BBBB4sH',
+                '!BBBB{}sH'.format(len(encoded_host)),
                 5,                   # version
                 0xF1,                # command
                 0x00,                # reserved
-                addr_type,
+                0x04 if is_v6 else 0x01,
                 encoded_host,
                 0,                   # port; unused? SOCKS is fun
             )
